@@ -4,6 +4,7 @@ import (
 	"fmt"
 	"math"
 	"reflect"
+	"sort"
 	"strings"
 	"time"
 )
@@ -20,6 +21,55 @@ import (
 var canonCap bool
 
 // CanonCapJSON is CanonJSON over the whole backing arrays of the slices in v.
+// TypeTree renders the dynamic types of a value and of everything reachable from it through maps, slices, pointers
+// and interfaces (contents are CanonJSON's business).
+func TypeTree(v reflect.Value) string {
+	if !v.IsValid() {
+		return "nil"
+	}
+	switch v.Kind() {
+	case reflect.Interface, reflect.Pointer:
+		if v.IsNil() {
+			return v.Type().String() + "(nil)"
+		}
+		if v.Kind() == reflect.Interface {
+			return TypeTree(v.Elem())
+		}
+		return "*" + TypeTree(v.Elem())
+	case reflect.Map:
+		if v.IsNil() {
+			return v.Type().String() + "(nil)"
+		}
+		keys := make([]string, 0, v.Len())
+		vals := map[string]string{}
+		for _, k := range v.MapKeys() {
+			ks := fmt.Sprintf("%v", k.Interface())
+			keys = append(keys, ks)
+			vals[ks] = TypeTree(v.MapIndex(k))
+		}
+		sort.Strings(keys)
+		var sb strings.Builder
+		sb.WriteString(v.Type().String() + "{")
+		for _, k := range keys {
+			sb.WriteString(k + ":" + vals[k] + ",")
+		}
+		sb.WriteString("}")
+		return sb.String()
+	case reflect.Slice, reflect.Array:
+		if v.Kind() == reflect.Slice && v.IsNil() {
+			return v.Type().String() + "(nil)"
+		}
+		var sb strings.Builder
+		sb.WriteString(v.Type().String() + "[")
+		for i := 0; i < v.Len(); i++ {
+			sb.WriteString(TypeTree(v.Index(i)) + ",")
+		}
+		sb.WriteString("]")
+		return sb.String()
+	}
+	return v.Type().String()
+}
+
 func CanonCapJSON(v reflect.Value) string {
 	canonCap = true
 	defer func() { canonCap = false }()
